@@ -1453,16 +1453,19 @@ impl Formatter<'_> {
         let mut start_line_pos = self.curr_line_pos();
         let mut depth_indent = self.indentation(depth);
         let starts_indented = start_line_pos > depth_indent;
-        if allow_compact && !has_leading_newline {
+        let allow_leading_newline = !allow_compact || starts_indented || has_trailing_newline;
+        // A leading newline that is not kept leaves the first item on the opening line,
+        // which must then be laid out like it will be when formatted again
+        let keeps_leading_newline = has_leading_newline && allow_leading_newline;
+        if allow_compact && !keeps_leading_newline {
             depth_indent = depth_indent.max(start_line_pos);
         }
-        if !has_leading_newline {
+        if !keeps_leading_newline {
             while start_line_pos < depth_indent {
                 self.output.push(' ');
                 start_line_pos += 1;
             }
         }
-        let allow_leading_newline = !allow_compact || starts_indented || has_trailing_newline;
         let last_index = items.len() - 1;
         for (i, item) in items.iter().enumerate() {
             let is_empty_line = item.is_empty_line();
